@@ -51,7 +51,7 @@ TEXT = {
             "theorem", "qref verify_topology is a hand model, corresponded on every injected fault"),
     "C18": ("LaTeX rendering total and complete: oracle with an independent formatter of entry keys incl. multiplicity, four flag combinations, source and compiled documents",
             "theorem", "sympy.latex external (partial)"),
-    "C19": ("Big-O: theorem about the leading-term filter on decreasing exponent lists; exhaustive coefficient patterns on the real BigO",
+    "C19": ("Big-O: theorems about the leading-term filter (decreasing exponent lists give exactly the degree; in ANY order the largest exponent is reported and the result is non-empty); exhaustive coefficient patterns on the real BigO",
             "theorem", "Poly.terms() ordering is a contract checked on samples"),
     "C20": ("gradient descent: invariant proved for ANY cost function and ANY arithmetic over a linear order (bounds, history, start, consistency, errors); Float instance compared bit-for-bit with the implementation",
             "theorem", "IEEE NaN not a linear order (partial); Lean Float + - * / are IEEE doubles"),
